@@ -253,6 +253,10 @@ def run(ctx):
             okc = False
     if okc:
         ctx.ok("c03.azimuth", "c03.azimuth|formula", "orientation_bdl_to_52016(a) = normalize(180 - a, -180, 180)", f.loc())
+    elif n0 is not None and n0[0] == "call" and short_callee(n0[1]) == "normalize_azimuth" and len(n0[2]) == 1 and \
+            Normalizer({f.body.names.get(1, "azimuth"): "a"}).code(strip(n0[2][0])).equals(Normalizer({}).ref("180 - a")):
+        # the argument is right; the wrapping helper is written in a way this rule cannot read (loops instead of the closed form)
+        raise AnalysisError("normalize_azimuth is not the closed form normalize(a, -180, 180): the wrap into [-180, 180) cannot be decided from its shape")
     else:
         ctx.violation("c03.azimuth", "c03.azimuth|formula", "orientation_bdl_to_52016 is %s, expected normalize(180 - a, -180, 180)" % (show(n0)[:100] if n0 else "?"), f.loc())
 
